@@ -523,7 +523,7 @@ func c06Scn(cs c06Case, bound int) *Scn {
 func init() {
 	harness.Register(&harness.Check{
 		Property: "C06", Level: "exploration", NeedsConc: true, QuickS: 200, ThoroughS: 1200,
-		Rule:   "grid of local hold x remote hold over {0,3,4,9,10,30,90,65535}^2 x remote traffic {silent, KEEPALIVE every H/3, every H-1ns, exactly at H, UPDATE every H/2, alternating at 2H/3, silent in OpenConfirm} x local writes {none, every H/4, burst} x both Go timer-channel semantics, each one run of the real FSM in virtual time over 3H (10x65535 s for H=0) with time-stamped observations; plus all schedules within the delay bound (1 quick / 2 thorough) for 4 hold pairs x traffic x writes; all cases non-trivial and distinct",
+		Rule:   "grid of local hold x remote hold over {0,3,4,9,10,30,90,65535}^2 x remote traffic {silent, KEEPALIVE every H/3, every H-1ns, exactly at H, UPDATE every H/2, alternating at 2H/3, silent in OpenConfirm} x local writes {none, every H/4, burst} x both Go timer-channel semantics, each one run of the real FSM in virtual time over 3H (10x65535 s for H=0) with time-stamped observations; plus all schedules within the delay bound (1 quick / 2 thorough) for 4 hold pairs x traffic x writes; plus the judged session as the second session of the peer after one that negotiated another value, and a handler that is slow around the expiry instant; all cases non-trivial and distinct",
 		Assume: []string{"virtual clock: computation takes zero time; timers due at the same instant fire in either order only under schedule exploration", "handlers return in zero time", "cadence limit hold/3 + 1 s"},
 		Run:    c06Check,
 		Replay: func(c *harness.Ctx, raw json.RawMessage) {
